@@ -10,6 +10,9 @@ use std::path::PathBuf;
 use vharness::checks::{self, WorkerCtx, WorkerOut};
 use vharness::supervise::*;
 
+#[global_allocator]
+static GLOBAL: vharness::alloc::Counting = vharness::alloc::Counting;
+
 struct CheckDef {
     id: &'static str,
     worker: fn(&WorkerCtx) -> WorkerOut,
@@ -30,6 +33,10 @@ fn defs() -> Vec<CheckDef> {
         CheckDef { id: "C17", worker: checks::simchecks::worker_c17, replay: Some(checks::simchecks::replay), crash_is_violation: false },
         CheckDef { id: "C18", worker: checks::simchecks::worker_c18, replay: Some(checks::simchecks::replay), crash_is_violation: false },
         CheckDef { id: "C19", worker: checks::simchecks::worker_c19, replay: Some(checks::simchecks::replay), crash_is_violation: true },
+        CheckDef { id: "C06", worker: checks::c06::worker, replay: Some(checks::c06::replay), crash_is_violation: false },
+        CheckDef { id: "C12", worker: checks::c12::worker, replay: None, crash_is_violation: true },
+        CheckDef { id: "C11", worker: checks::c11::worker, replay: Some(checks::c11::replay), crash_is_violation: true },
+        CheckDef { id: "C13", worker: checks::c13::worker, replay: Some(checks::c13::replay), crash_is_violation: true },
         CheckDef { id: "C02", worker: checks::c02::worker, replay: Some(checks::c02::replay), crash_is_violation: false },
         CheckDef { id: "C03", worker: checks::c03::worker, replay: Some(checks::c03::replay), crash_is_violation: false },
         CheckDef { id: "C04", worker: checks::c04::worker, replay: Some(checks::c04::replay), crash_is_violation: false },
@@ -46,6 +53,7 @@ fn main() {
     let args: Vec<String> = std::env::args().skip(1).collect();
     let code = match args.first().map(|s| s.as_str()) {
         Some("--worker") => run_worker(&args[1], &args[2]),
+        Some("--c13-helper") => checks::c13::helper_main(),
         Some("replay") => run_replay(&args[1]),
         Some(id) if args.len() >= 2 => supervise(id, &args[1]),
         _ => {
